@@ -100,14 +100,16 @@ fn main() {
             let mut store: [u64; 3] = [rng.below(5) + 10, rng.below(5) + 10, rng.below(5) + 10];
             let mut b = 0usize;
             let mut steps = 0;
+            let mut assigned = [false; 3];
             'run: loop {
                 for (i, op) in blocks[b].iter().enumerate() {
                     // check the reported constants immediately before the instruction executes
                     let loc = ProgramLocation::new(None, FunctionLocation::Instruction(b, i));
                     if let Some(c) = map.get(&loc) {
-                        // every scalar has been assigned by the function once the three entry assignments have run
-                        if !(b == 0 && i < 3 && steps == 0) {
+                        // the claim is about the scalars the function itself has assigned so far
+                        {
                             for v in 0..3 {
+                                if !assigned[v] { continue; }
                                 if let Some(k) = c.scalar(&sc(v)) {
                                     checks += 1;
                                     if k.value_u64() != Some(store[v] & 0xffff_ffff) {
@@ -121,6 +123,10 @@ fn main() {
                         }
                     } else {
                         println!("MISSING location {} in the result of #{}", loc, it);
+                    }
+                    match op {
+                        Op::AssignConst(v, _) | Op::AssignAdd(v, _, _) | Op::AssignCopy(v, _) | Op::AssignSum(v, _, _) | Op::Load(v) => assigned[*v] = true,
+                        Op::Nop => {}
                     }
                     match op {
                         Op::AssignConst(v, k) => store[*v] = *k,
